@@ -69,9 +69,6 @@ func main() {
 	if s := os.Getenv("VERIF_SEED"); s != "" {
 		seed, _ = strconv.Atoi(s)
 	}
-	if t := os.Getenv("VERIF_TIER"); t == "quick" || t == "thorough" {
-		*tier = t
-	}
 	cfg := &RunCfg{StepBudget: 20_000_000, Workers: *workers, Known: map[string]bool{}, MaxPaths: 400_000, exhaustiveLast: false}
 	if cfg.Workers <= 0 {
 		cfg.Workers = runtime.NumCPU()
